@@ -165,7 +165,7 @@ func (e *env) evalA(tctx sdk.Context, d0 string, txs aTxs, c caseA) {
 		r.Violate("harness:a:tx-"+res.Stage, fmt.Sprintf("%s: execute-job tx failed in stage %s: %v", c, res.Stage, res.Err), rec)
 		return
 	}
-	d1 := w.StoreDigest(ctx, "consensus")
+	d1 := w.StoreDigest(ctx, world.ConsensusStore)
 	if !res.OK() {
 		e.count("a_requests_failed")
 		if set != 0 {
@@ -264,7 +264,7 @@ func (e *env) runTables(shard, nshards int, drift bool, maxFar int, times int, t
 				opts := [3]int{o0, o1, o2}
 				tctx := world.Fork(w.Root)
 				e.applyTable(tctx, opts, drift)
-				d0 := w.StoreDigest(tctx, "consensus")
+				d0 := w.StoreDigest(tctx, world.ConsensusStore)
 				e.count("a_tables")
 				for _, mev := range []bool{false, true} {
 					nt := times
@@ -300,5 +300,5 @@ func (e *env) replayA(c caseA) {
 	txs := e.buildATxs()
 	tctx := world.Fork(e.w.Root)
 	e.applyTable(tctx, c.Opts, c.Drift)
-	e.evalA(tctx, e.w.StoreDigest(tctx, "consensus"), txs, c)
+	e.evalA(tctx, e.w.StoreDigest(tctx, world.ConsensusStore), txs, c)
 }
